@@ -5,9 +5,9 @@
 For every generated (configuration, operation) pair the real planner's plan is dumped (harness/cmd/c01p), translated
 to the Coq plan form (a plan TREE, coq/C01/ProofsPlan3.v; fallback: the depth-1 form of ProofsPlan2.v) and given to the
 verified validator `tv3_static_b` (`tv2_static_b`) extracted into bin/model_c01p (ocaml/c01p/driver.ml).  By theorem
-`tv3_sound` / `tv4_sound` (coq/C01/ProofsPlan3Main.v; `tv2_sound`, ProofsTvMain.v) acceptance means: for EVERY universe of the
-contract `univ3_contract_b` (`univ4_contract_b` for trees with positions resolved per runtime type: interface / union
-positions) the gateway model executing that plan returns what a single server over the supergraph returns for the client's
+`tv3_sound` / `tv4_sound` / `tv5_sound` (coq/C01/ProofsPlan3Main.v; `tv2_sound`, ProofsTvMain.v) acceptance means: for EVERY
+universe of the contract `univ3_contract_b` (`univ4_contract_b` for trees with positions resolved per runtime type: interface /
+union positions; `univ5_contract_b` with keys with one level of nesting) the gateway model executing that plan returns what a single server over the supergraph returns for the client's
 operation.  The translation is checked, not trusted: the model's own requests must be the
 real plan's requests and the requests of real end-to-end runs, and the extracted model run on the sampled universes
 must return the real gateway's response."""
@@ -23,7 +23,7 @@ if __name__ == "__main__":
 import vlib
 
 ASSUMPTIONS = [
-    "plan translation validation (C01p): the theorems tv3_sound / tv4_sound / tv2_sound are about the gateway MODEL gateway3 / gateway2 "
+    "plan translation validation (C01p): the theorems tv3_sound / tv4_sound / tv5_sound / tv2_sound are about the gateway MODEL gateway3 / gateway2 "
     "(coq/C01/ProofsPlan3.v, ProofsPlan2.v: one Sub-mode request per root subgraph, the answers merged and read in the client's "
     "order; then, recursively at every object of the response, the entity fetches of that position -- one _entities request per "
     "object, representation read off the object as merged so far --, the members assembled in the client's order from the sources, "
@@ -45,10 +45,11 @@ ASSUMPTIONS = [
     "one-type requests; identical requests of one execution counted once -- single flight, C11), ocaml/common/gqlread.ml, "
     "extraction (ExtrOcamlBasic)",
     "C01p: the theorem is about the operation the planner is given (normalised, fragment spreads inlined, literals extracted into "
-    "variables, variables renamed); that normalisation preserves the client operation's meaning is property C03; configurations "
-    "satisfy harness/fedlab/CONTRACT.md; the universe contract univ3_contract_b / univ4_contract_b (objects reached through a subgraph's fields have "
+    "variables, variables renamed; the planner's own placeholder `__internal_...: __typename`, put where @skip / @include leave a "
+    "selection set empty, asked of the subgraph and never rendered, is no part of it); that normalisation preserves the client operation's meaning is property C03; configurations "
+    "satisfy harness/fedlab/CONTRACT.md; the universe contract univ3_contract_b / univ4_contract_b / univ5_contract_b (objects reached through a subgraph's fields have "
     "types the subgraph declares, declared keys identify entities, key fields and @requires inputs are plain non-null leaves, "
-    "computed (@requires) fields only where declared; univ4: every entity has a declared object type; nothing is assumed about the values of list-typed fields) is evaluated on every sampled universe and the "
+    "computed (@requires) fields only where declared; univ4: every entity has a declared object type; univ5: a declared key with one level of nesting identifies the entities of its type, its nested fields refer to existing entities with plain non-null inner leaves; nothing is assumed about the values of list-typed fields) is evaluated on every sampled universe and the "
     "count reported",
 ]
 
@@ -90,8 +91,9 @@ def run_part(chk, n_cfg=None, unis=None, knobs="all2"):
           "pending_proof": {}, "rejected_in_fragment": 0, "translation_check_failures": 0,
           "accepted_by_theorem": {}, "max_fetch_depth": 0,
           "universes_run": 0, "universes_in_contract": 0,
-          "theorem": "tv3_sound (plan trees) / tv4_sound (plan trees with positions resolved per runtime type), coq/C01/ProofsPlan3Main.v, "
-                     "Properties.v plan_tree_valid_all_universes / plan_tree_abstract_valid_all_universes; fallback tv2_sound (depth 1, coq/C01/ProofsTvMain.v)"}
+          "theorem": "tv3_sound (plan trees) / tv4_sound (+ positions resolved per runtime type) / tv5_sound (+ keys with one level of nesting), "
+                     "coq/C01/ProofsPlan3Main.v, Properties.v plan_tree_valid_all_universes / plan_tree_abstract_valid_all_universes / "
+                     "plan_tree_nested_keys_valid_all_universes; fallback tv2_sound (depth 1, coq/C01/ProofsTvMain.v)"}
     chk.coverage["plan_validation"] = pv
     ok, log = vlib.build_model("C01p")
     if not ok:
